@@ -13,7 +13,7 @@ META = {
              "ResendRequest, wrong Heartbeat id -> Logout, too-low number -> Logout); after every step: every new tapped frame carries the next "
              "number, the journal returns exactly the tapped bytes under that number, stored next-out == last+1 == live counter, a refused "
              "send changes nothing; distinct = hash of the step trace; non-trivial = history with >= 1 refused and >= 3 accepted sends"),
-    "assumptions": ["inbound ResendRequest servicing (C06) and transport faults (C07/C09) are excluded from these histories"],
+    "assumptions": ["transport faults (C07/C09) are excluded from these histories; inbound ResendRequests are part of them since repo fix 7af4ef7 (their replies are judged by C06)"],
 }
 REQUIRED_ORACLES = ["numbering", "journal-readback", "stored-counter", "refused-send-unchanged", "bystander-session-untouched"]
 NSHARDS = 16
@@ -113,7 +113,7 @@ async def history(acc, clock, rnd, cid):
             if not connected:
                 acts += ["attach"] * 6
             else:
-                acts += ["in_logon", "in_testreq", "in_gapfill", "in_gap", "in_app", "in_app", "in_badhb", "in_toolow", "in_logout", "disconnect"]
+                acts += ["in_logon", "in_testreq", "in_gapfill", "in_resendreq", "in_gap", "in_app", "in_app", "in_badhb", "in_toolow", "in_logout", "disconnect"]
             a = rnd.choice(acts)
             before = snapshot()
             tap0 = before[0]
@@ -184,6 +184,10 @@ async def history(acc, clock, rnd, cid):
                 ep.vf_reader.feed(peer.frame("1", None, [(112, f"T{step}")]))
             elif a == "in_app":
                 ep.vf_reader.feed(peer.frame("8", None, [(11, f"p{step}")]))
+            elif a == "in_resendreq":
+                # the peer asks for a replay: retransmissions and gap fills go out with their own numbers and do not disturb the numbering
+                last_ = max(1, ep._session.next_num_out - 1)
+                ep.vf_reader.feed(peer.frame("2", None, [(7, rnd.choice([1, max(1, last_ - 2), last_])), (16, rnd.choice([0, 0, last_]))]))
             elif a == "in_gapfill":
                 # inbound SequenceReset-GapFill at the expected number: the library renumbers its INBOUND side through set_seq_num
                 e_ = peer.next_out
